@@ -1622,7 +1622,53 @@ func ternarySearchComplete(p *Program, r *Reporter, h *ssa.Function) {
 	for _, nm := range implementers(exprIface) {
 		visit(nm)
 	}
-	// the cases of the search
+	// the cases of the search — in the search function itself, or in a
+	// function that lists the children of a node for it (one that returns
+	// only parts of the node it is given, and over whose result the search
+	// calls itself)
+	hasSwitch := false
+	ast.Inspect(decl.Body, func(n ast.Node) bool {
+		if _, ok := n.(*ast.TypeSwitchStmt); ok {
+			hasSwitch = true
+		}
+		return true
+	})
+	if !hasSwitch {
+		for _, b := range h.Blocks {
+			for _, ins := range b.Instrs {
+				cl, ok := ins.(*ssa.Call)
+				if !ok {
+					continue
+				}
+				g := cl.Call.StaticCallee()
+				if _, ok := returnsPartsOf(g); !ok {
+					continue
+				}
+				// the search is applied to the elements of the result
+				applied := false
+				for _, b2 := range h.Blocks {
+					for _, i2 := range b2.Instrs {
+						c2, ok := staticCalleeIs(i2, h)
+						if !ok || len(c2.Call.Args) == 0 {
+							continue
+						}
+						if ld, ok := c2.Call.Args[0].(*ssa.UnOp); ok {
+							if ia, ok := ld.X.(*ssa.IndexAddr); ok && ia.X == ssa.Value(cl) {
+								if _, c, init, step, ok := induction(ia.Index); ok && step == 1 {
+									if k0, isC := constInt(init); isC && k0+c == 0 {
+										applied = true
+									}
+								}
+							}
+						}
+					}
+				}
+				if applied && p.FuncDecl(g) != nil {
+					decl, info = p.FuncDecl(g), p.Info(g)
+				}
+			}
+		}
+	}
 	cases := map[string]*ast.CaseClause{}
 	var swVar *ast.Ident
 	ast.Inspect(decl.Body, func(n ast.Node) bool {
